@@ -40,14 +40,17 @@ where
 	match input.into() {
 		Input::Reader(r) => transcode_reader(BufReader::new(r), output),
 		Input::Slice(b) => match str::from_utf8(&b) {
-			Ok(s) => {
+			// UTF-16 and UTF-32 text made only of ASCII characters is also valid
+			// UTF-8 (full of NUL bytes), so the fast path additionally requires
+			// that encoding detection agrees the input is UTF-8.
+			Ok(s) if matches!(Encoding::detect(&b), Encoding::Utf8) => {
 				vhit!(YAML_SLICE_UTF8_PATH);
 				for de in serde_yaml::Deserializer::from_str(s) {
 					output.transcode_from(de)?;
 				}
 				Ok(())
 			}
-			Err(_) => {
+			_ => {
 				vhit!(YAML_SLICE_REENCODE_PATH);
 				// The reader path supports automatic re-encoding of UTF-16 and
 				// UTF-32 input. See transcode_reader for details.
